@@ -143,6 +143,7 @@ type HarnessSpec struct {
 	Witnesses  int             // max witness models to extract
 	Concrete   map[string]*big.Int // if non-nil: concrete re-execution with these named values
 	KeepObs    bool
+	FullFeasMs int // >0: also try branch feasibility under the full (nonlinear) path condition with this cap
 	Tier       string
 }
 
@@ -190,6 +191,7 @@ type HarnessResult struct {
 	Steps       int64
 	witnessed   map[string]bool
 	PathObs     []PathObs // product mode
+	ForkSites   map[string]int
 	KeepPathObs bool
 }
 
@@ -237,6 +239,8 @@ type Engine struct {
 
 	snap     map[*ssa.Global]value
 	fmtDepth int
+	forkSites map[string]int
+	varSign   map[string]sign
 	cur      *frame // innermost frame (diagnostics only)
 }
 
@@ -323,10 +327,14 @@ func (e *Engine) RunPath(spec *HarnessSpec, res *HarnessResult, prefix []bool) (
 	e.spec, e.res = spec, res
 	e.prefix, e.taken, e.pc, e.defs, e.decls, e.names, e.fresh = prefix, nil, nil, nil, nil, nil, 0
 	e.refine = nil
+	e.varSign = map[string]sign{}
 	e.declSet = map[string]bool{}
 	e.steps, e.covers, e.obs, e.newWork, e.blobs, e.world = 0, nil, nil, nil, nil, nil
 	e.obsTerms = map[string]*Term{}
 	e.funcs, e.summ = map[string]int{}, map[string]int{}
+	if os.Getenv("VRF_FORKS") != "" {
+		e.forkSites = map[string]int{}
+	}
 	e.restoreGlobals()
 	q0, t0 := e.S.Queries, e.S.Time
 	outcome := "completed"
@@ -339,6 +347,9 @@ func (e *Engine) RunPath(spec *HarnessSpec, res *HarnessResult, prefix []bool) (
 					outcome, detail = "ended", r.reason
 				case pathAbort:
 					outcome, detail = "aborted", r.reason
+					if !strings.Contains(r.reason, " called from ") {
+						detail += " in " + chainOf(e.cur, 4)
+					}
 				case targetPanic:
 					outcome, detail = "panic", toString(r.v)
 				case *runtime.TypeAssertionError:
@@ -382,6 +393,12 @@ func (e *Engine) RunPath(spec *HarnessSpec, res *HarnessResult, prefix []bool) (
 	}
 	for f, c := range e.summ {
 		res.Summarised[f] += c
+	}
+	for f, c := range e.forkSites {
+		if res.ForkSites == nil {
+			res.ForkSites = map[string]int{}
+		}
+		res.ForkSites[f] += c
 	}
 	res.Queries += e.S.Queries - q0
 	res.SolverTime += e.S.Time - t0
@@ -479,8 +496,17 @@ func (e *Engine) feasible(c *Term) string {
 	// Branch feasibility uses the linear part of the path condition only: dropping
 	// conjuncts over-approximates the set of feasible paths (never loses one), and
 	// assertion queries always use the full path condition.
+	if v, ok := e.quickDecide(c); ok {
+		if v {
+			return "sat"
+		}
+		return "unsat"
+	}
 	if c.Nonlinear() {
-		return "unknown"
+		if e.spec.FullFeasMs <= 0 {
+			return "unknown"
+		}
+		return e.S.Check(e.decls, e.pcStrings(c), e.spec.FullFeasMs)
 	}
 	out := make([]string, 0, len(e.pc)+1)
 	for _, t := range e.pc {
@@ -489,7 +515,15 @@ func (e *Engine) feasible(c *Term) string {
 		}
 	}
 	out = append(out, c.String())
-	return e.S.Check(e.decls, out, e.spec.BranchMs)
+	r := e.S.Check(e.decls, out, e.spec.BranchMs)
+	if r == "unsat" || len(out) == len(e.pc)+1 || e.spec.FullFeasMs <= 0 {
+		return r
+	}
+	// hybrid: a short attempt with the full path condition prunes spurious paths when it is cheap
+	if r2 := e.S.Check(e.decls, e.pcStrings(c), e.spec.FullFeasMs); r2 == "unsat" {
+		return "unsat"
+	}
+	return r
 }
 
 func (e *Engine) decideAt(fr *frame, instr *ssa.If, c *Term) bool {
@@ -528,6 +562,13 @@ func (e *Engine) decide(c *Term) bool {
 			dir = true
 			alt := append(append(make([]bool, 0, n+1), e.taken...), false)
 			e.newWork = append(e.newWork, alt)
+			if e.forkSites != nil && e.cur != nil {
+				site := e.cur.fn.String()
+				if e.cur.caller != nil {
+					site += " <- " + e.cur.caller.fn.String()
+				}
+				e.forkSites[site]++
+			}
 		case rt != "unsat":
 			dir = true
 		default:
@@ -537,8 +578,10 @@ func (e *Engine) decide(c *Term) bool {
 	e.taken = append(e.taken, dir)
 	if dir {
 		e.pc = append(e.pc, c)
+		e.noteAtom(c)
 	} else {
 		e.pc = append(e.pc, Not(c))
+		e.noteAtom(Not(c))
 	}
 	return dir
 }
@@ -551,6 +594,7 @@ func (e *Engine) assume(c *Term) {
 		panic(pathEnd{"assume false"})
 	}
 	e.pc = append(e.pc, c)
+	e.noteAtom(c)
 }
 
 // ----- assertion checking -----
